@@ -161,7 +161,7 @@ func (i *Interp) panicString(fr *frame, tp targetPanic) string {
 		return s
 	}
 	defer func() { recover() }()
-	if m := i.prog.LookupMethod(itf.t, nil, "Error"); m != nil {
+	if m := i.findMethod(itf.t, "Error"); m != nil {
 		if s, ok := i.call(fr, token.NoPos, m, []Value{itf.v}).(string); ok {
 			return s
 		}
